@@ -1319,7 +1319,8 @@ class Stage:
     @property
     def _transcribed(self):
         if not self.is_transcribed and self._is_original:
-            self.master._transcribe()
+            # Through the master's property: the transcription is done on a copy, as for ocp.solve()
+            self.master._transcribed
         if self._is_original:
             return self._augmented 
         else:
